@@ -215,7 +215,7 @@ def classify(text: str, mode: Any) -> str:
             try:
                 import astor
                 import copy
-                a_src = astor.to_source(copy.deepcopy(node)).strip()
+                a_src = astor.to_source(exprnorm.clone(node)).strip()
                 if exprnorm.same(node, a_src) is not None:
                     return 'expr:astor-codegen'
             except Exception:
@@ -411,7 +411,7 @@ def check_sites(exprs_: List[str]) -> Tuple[List[Tuple[str, str]], int]:
         from .c14 import _Unstring
         import copy
         try:
-            return _Unstring().visit(copy.deepcopy(ast.parse(text, mode='eval').body))
+            return _Unstring().visit(exprnorm.clone(ast.parse(text, mode='eval').body))
         except (SyntaxError, ValueError):
             return None
 
